@@ -124,6 +124,12 @@ def write_replay(prop, v):
     return path
 
 
+def _reproduced(res, sig):
+    if res is True or res == sig:
+        return True
+    return isinstance(res, (list, tuple, set)) and sig in res
+
+
 def finish(prop, tier, seed, t0, acc, coverage, assumptions, module=None):
     """Writes evidence, prints VIOLATION / KNOWN-FINDING lines, returns the exit code."""
     known = load_known()
@@ -147,7 +153,7 @@ def finish(prop, tier, seed, t0, acc, coverage, assumptions, module=None):
                 again = module.replay(v["case"])
             except Exception:  # noqa: BLE001
                 again = ("replay crashed: " + traceback.format_exc(limit=3))
-            if again is not True and again != v["sig"]:
+            if not _reproduced(again, v["sig"]):
                 print(f"HARNESS-ERROR property={prop} violation did not reproduce on replay: "
                       f"{v['sig']} -> {again}")
                 harness_error = True
@@ -215,7 +221,7 @@ def main(argv=None):
         with open(replay) as f:
             data = json.load(f)
         res = module.replay(data["case"])
-        if res is True or res == data.get("signature"):
+        if _reproduced(res, data.get("signature")):
             print(f"VIOLATION property={prop} replay={replay}")
             print(f"  reproduced: {data.get('signature')}")
             return 1
